@@ -472,21 +472,18 @@ TxComplete(cfg, s, ev) ==
                  sh1 == [sh EXCEPT !.order = old.order, !.renew = old.renew, !.created = s.h, !.dur = ShardEnd(old) - s.h]
                  w2 == WorkerAppend(cfg, WorkerRelease(cfg, w1, old), sh1)
                  w3 == DelShard(w2, old.id)
-                 olist == <<o.id>> \o (IF old.order # o.id THEN <<old.order>> ELSE <<>>) \o
-                          (IF Len(old.renew) > 1 THEN [i \in 1..(Len(old.renew) - 1) |-> old.renew[i].order] ELSE <<>>)
+                 \* the shard lists of ALL orders of the model are brought in line with the hand-over: nobody lists the old shard any
+                 \* more; the new shard is listed once by exactly the orders it belongs to (the order in progress and its queued
+                 \* renewals); an order that lists nothing any more goes
+                 ids == <<o.id, old.order>> \o m.orders
+                 belongs(id) == id = old.order \/ \E q \in 1..Len(old.renew) : old.renew[q].order = id
                  fix(acc, k) ==
-                     IF ~HasOrder(acc, olist[k]) THEN acc
-                     ELSE LET oo == OrderOf(acc, olist[k])
-                              ns == RemoveVal(oo.shards, old.id)
-                              ns2 == IF k > 1 /\ ~InSeq(sh.id, oo.shards) THEN Append(ns, sh.id) ELSE ns
-                          IN SetOrder(acc, [oo EXCEPT !.shards = ns2])
-                 w4a == FoldLeft(fix, w3, [k \in 1..Len(olist) |-> k])
-                 \* the order the migration was opened under (sh.order): if its own period has ended since (the old shard
-                 \* rolled over to a renewal) it is none of the above; it stops listing the new shard and goes when empty
-                 w4 == IF InSeq(sh.order, olist) \/ ~HasOrder(w4a, sh.order) THEN w4a
-                       ELSE LET so == OrderOf(w4a, sh.order)
-                                keep == SelectSeq(so.shards, LAMBDA id : id # sh.id /\ id # old.id)
-                            IN IF keep = <<>> THEN DelOrder(w4a, so.id) ELSE SetOrder(w4a, [so EXCEPT !.shards = keep])
+                     IF InSeq(ids[k], SubSeq(ids, 1, k - 1)) \/ ~HasOrder(acc, ids[k]) THEN acc
+                     ELSE LET oo == OrderOf(acc, ids[k])
+                              kept == SelectSeq(oo.shards, LAMBDA x : x # old.id /\ (x # sh.id \/ belongs(oo.id)))
+                              ns == IF belongs(oo.id) /\ ~InSeq(sh.id, kept) THEN Append(kept, sh.id) ELSE kept
+                          IN IF ns = <<>> THEN DelOrder(acc, oo.id) ELSE SetOrder(acc, [oo EXCEPT !.shards = ns])
+                 w4 == FoldLeft(fix, w3, [k \in 1..Len(ids) |-> k])
                  sh2 == [sh1 EXCEPT !.status = SCompleted]
                  w5 == ExtendMetaDuration(cfg, ExpShardAdd(w4, ShardEnd(sh2), sh.id), o.data, ShardEnd(sh2))
                  w6 == ShardPledge(cfg, w5, sh2)
